@@ -27,7 +27,7 @@ var subjects = []string{
 }
 var cctypes = []string{"", "feat", "fix", "docs", "", "", "refactor", "chore", "", "feat", "fix", "docs", "feat", "perf", "style"}
 var dirs = []string{"", "src/", "src/main/java/", "docs/", "my dir/", "d 1 2/"}
-var bases = []string{"a.txt", "B.java", "readme.md", "my file.txt", "x 3 4.txt", "Main.java", "util.go", "c.txt", "naïve.txt", "文档 1.md"}
+var bases = []string{"a.txt", "B.java", "readme.md", "my file.txt", "x 3 4.txt", "Main.java", "util.go", "c.txt", "naïve.txt", "文档 1.md", "release  notes.txt"}
 
 // a path git prints in quoted form (bytes outside ASCII): such files are created, modified and deleted, never renamed
 func quotedByGit(p string) bool {
